@@ -49,8 +49,73 @@ def rvec(rng, elt, n):
     return [val(rng, elt) for _ in range(n)]
 
 def mk(elt, m0, ops, family, nontrivial=True):
+    # exact tier: kind mat.histeq (every state dump is followed by `m == freshly built matrix`, so stale or missing
+    # raw storage is observable); float tiers: mat.hist (NaN entries would make == false for a harmless reason)
+    if elt == 'rat':
+        return Case(elt, histeq_line(elt, m0, ops), histeq_term(elt, m0, ops),
+                    meta={"m0": m0, "ops": ops}, family=family, nontrivial=nontrivial)
     return Case(elt, hist_line(elt, m0, ops), hist_term(elt, m0, ops),
                 meta={"m0": m0, "ops": ops}, family=family, nontrivial=nontrivial)
+
+# ---- systematic op-pairs: every ordered pair of editing operations, in-range arguments for the current shape
+def _ix(g, n): return g.below(n) if n > 0 else 0
+def _nz(g):
+    x = val(g, 'rat')
+    return x if x != 0 else Fraction(3, 2)
+EDIT_OPS = [
+    ("set_row",        lambda g, r, c: ("set_row", _ix(g, r), rvec(g, 'rat', c))),
+    ("set_col",        lambda g, r, c: ("set_col", _ix(g, c), rvec(g, 'rat', r))),
+    ("delete_row",     lambda g, r, c: ("delete_row", _ix(g, r))),
+    ("resize+rows",    lambda g, r, c: ("resize", r + 1 + g.below(2), c)),          # same cols, more rows
+    ("resize-rows",    lambda g, r, c: ("resize", max(r - 1, 0), c)),               # same cols, fewer rows
+    ("resize+cols",    lambda g, r, c: ("resize", r, c + 1)),
+    ("resize-cols",    lambda g, r, c: ("resize", r + g.below(2), max(c - 1, 0))),
+    ("resize-same",    lambda g, r, c: ("resize", r, c)),
+    ("transpose_in_place", lambda g, r, c: ("transpose_in_place",)),
+    ("swap_rows",      lambda g, r, c: ("swap_rows", _ix(g, r), _ix(g, r))),
+    ("fill",           lambda g, r, c: ("fill", val(g, 'rat'))),
+    ("fill_diag",      lambda g, r, c: ("fill_diag", val(g, 'rat'))),
+    ("fill_band",      lambda g, r, c: ("fill_band", g.range(-max(r - 1, 0), max(c - 1, 0)), val(g, 'rat'))),
+    ("fill_tridiag",   lambda g, r, c: ("fill_tridiag", val(g, 'rat'), val(g, 'rat'), val(g, 'rat'))),
+    ("fill_row",       lambda g, r, c: ("fill_row", _ix(g, r), val(g, 'rat'))),
+    ("fill_col",       lambda g, r, c: ("fill_col", _ix(g, c), val(g, 'rat'))),
+    ("clear",          lambda g, r, c: ("clear",)),
+    ("set",            lambda g, r, c: ("set", _ix(g, r), _ix(g, c), val(g, 'rat')) if r * c > 0 else ("numel",)),
+    ("swap_elem",      lambda g, r, c: ("swap_elem", _ix(g, r), _ix(g, c), _ix(g, r), _ix(g, c)) if r * c > 0 else ("numel",)),
+    ("add_assign",     lambda g, r, c: ("add_assign", rmat(g, 'rat', r, c))),
+    ("sub_assign_own", lambda g, r, c: ("sub_assign_own", rmat(g, 'rat', r, c))),
+    ("mul_assign_s",   lambda g, r, c: ("mul_assign_s", val(g, 'rat'))),
+    ("div_assign_s",   lambda g, r, c: ("div_assign_s", _nz(g))),
+    ("add_assign_s",   lambda g, r, c: ("add_assign_s", val(g, 'rat'))),
+]   # (-= scalar is the same loop as += scalar; it is exercised by the single-op and history families)
+PAIR_SHAPES = [(1, 1), (2, 2), (3, 2), (2, 3)]
+
+def distinct_mat(r, c):
+    """entries 1..r*c: every element distinct and non-zero, so a misplaced or stale element shows"""
+    return (r, c, [Fraction(k + 1) for k in range(r * c)])
+
+def op_chain(g, m0, gens):
+    ops = []
+    for _, gen in gens:
+        r, c = shape_after(m0, ops)
+        ops.append(gen(g, r, c))
+    return ops
+
+def gen_op_pairs(rng, tier):
+    cases = []
+    g = rng.fork("op-pairs")
+    for (r, c) in PAIR_SHAPES:
+        m0 = distinct_mat(r, c)
+        for a in EDIT_OPS:
+            for b in EDIT_OPS:
+                cases.append(mk('rat', m0, op_chain(g, m0, [a, b]), "op-pairs"))
+    if tier == "thorough":
+        for _ in range(3000):
+            r, c = PAIR_SHAPES[g.below(len(PAIR_SHAPES))]
+            m0 = distinct_mat(r, c)
+            gens = [EDIT_OPS[g.below(len(EDIT_OPS))] for _ in range(3)]
+            cases.append(mk('rat', m0, op_chain(g, m0, gens), "op-triples"))
+    return cases
 
 def norm_val(rng):
     k = rng.below(10)
@@ -156,6 +221,8 @@ def rand_op(rng, elt, r, c, allow_bad=True):
     if name == "eye": return (name, rng.range(0, 4))
     raise ValueError(name)
 
+NONMUTATING = {"get", "get_row", "get_col", "multiply", "transpose", "neg", "add", "sub", "scale", "div", "mul", "mul_l", "eye", "numel"}
+
 def shape_after(m0, ops):
     """shape bookkeeping for the generator only (uses the reference model)"""
     m = RefMat(*m0)
@@ -200,9 +267,13 @@ def generate(rng, tier):
             for nr in range(0, S + 2):
                 for nc in range(0, S + 2):
                     ops.append(("add", rmat(g, 'rat', nr, nc)))
-            # each op runs against the same start (every op is its own short history, so state does not drift)
+            # each op runs against the same start: a state-changing op is its own one-step history; the value-returning
+            # ones (and their out-of-range variants, which panic) leave the state alone and share one history per shape
+            pure = [o for o in ops if o[0] in NONMUTATING]
             for o in ops:
-                cases.append(mk('rat', m0, [o], "single-op", nontrivial=True))
+                if o[0] not in NONMUTATING:
+                    cases.append(mk('rat', m0, [o], "single-op", nontrivial=True))
+            cases.append(mk('rat', m0, pure, "single-op-readers", nontrivial=True))
             for nr in range(0, S + 2):
                 for nc in range(0, S + 2):
                     cases.append(mk('rat', m0, [("resize", nr, nc)], "single-op"))
@@ -220,6 +291,8 @@ def generate(rng, tier):
         for c in range(1, 5):
             if r != c:
                 cases.append(mk_norms((r, c, [float(1 + i + 10 * j) * (-1) ** (i + j) for i in range(r) for j in range(c)]), "norms-pattern"))
+    # (p) every ordered pair of editing operations on 1x1, 2x2, 3x2, 2x3 (+ sampled triples in the thorough tier)
+    cases += gen_op_pairs(rng, tier)
     # (c) random histories
     g = rng.fork("hist")
     nh = 400 if tier == "thorough" else 80
@@ -270,7 +343,7 @@ def oracle(case, items):
         return norms_oracle(case, items)
     if case.elt != 'rat':
         return None
-    exp = ref_hist('rat', case.meta["m0"], case.meta["ops"])
+    exp = ref_hist('rat', case.meta["m0"], case.meta["ops"], eq=True)
     d = streams_equal_exact(exp, items)
     if d:
         return "dense matrix history disagrees with the list-of-rows reference: " + d
